@@ -60,18 +60,58 @@ func checkEOMWholeBuffer(c *Ctx, r *Report) {
 		n++
 		construct := fmt.Sprintf("end-of-message test #%d in %s", n, shortFn(read))
 		arg := stripConv(call.Call.Args[1])
-		switch {
-		case acc[arg]:
-			r.OK(rule, construct, c.Pos(call.Pos()), "applied to the whole accumulated buffer")
-		default:
-			what := "a value other than the accumulated buffer"
-			if _, isSl := arg.(*ssa.Slice); isSl {
-				what = "a slice (window) of the accumulated buffer"
+		// leaves of the argument (through phis): the accumulation itself, what is left of it after the echo was cut
+		// off its FRONT (both are "everything from some message boundary to the end"), or -- the defect -- a window
+		// taken from the TAIL (a slice whose low bound is computed from the length)
+		var leaves []ssa.Value
+		seen := map[ssa.Value]bool{}
+		var flat func(v ssa.Value)
+		flat = func(v ssa.Value) {
+			v = stripConv(v)
+			if seen[v] {
+				return
 			}
-			if _, isPhi := arg.(*ssa.Phi); isPhi {
-				what = "either the buffer or a window of it"
+			seen[v] = true
+			if phi, ok := v.(*ssa.Phi); ok {
+				for _, e := range phi.Edges {
+					flat(e)
+				}
+				return
 			}
-			r.Bad(rule, construct, c.Pos(call.Pos()), "the anchored end-of-message pattern is applied to "+what+": where the window starts inside a line, `^` matches there and payload text such as a line ending in \"##\" is taken for the marker -- the reply is cut and the rest of it is filed as a separate, broken message")
+			leaves = append(leaves, v)
+		}
+		flat(arg)
+		tailWindow := false
+		var lenDerived func(v ssa.Value, d int) bool
+		lenDerived = func(v ssa.Value, d int) bool {
+			if d > 4 {
+				return false
+			}
+			switch x := v.(type) {
+			case *ssa.Call:
+				if bi, ok := x.Call.Value.(*ssa.Builtin); ok && bi.Name() == "len" {
+					return true
+				}
+			case *ssa.BinOp:
+				return lenDerived(x.X, d+1) || lenDerived(x.Y, d+1)
+			case *ssa.Phi:
+				for _, e := range x.Edges {
+					if lenDerived(e, d+1) {
+						return true
+					}
+				}
+			}
+			return false
+		}
+		for _, l := range leaves {
+			if sl, ok := l.(*ssa.Slice); ok && sl.Low != nil && lenDerived(sl.Low, 0) {
+				tailWindow = true
+			}
+		}
+		if !tailWindow {
+			r.OK(rule, construct, c.Pos(call.Pos()), "applied to the accumulated buffer (or to what is left of it behind the echo), never to a tail window")
+		} else {
+			r.Bad(rule, construct, c.Pos(call.Pos()), "the anchored end-of-message pattern is applied to a window taken from the tail of the accumulated buffer: where the window starts inside a line, `^` matches there and payload text such as a line ending in \"##\" is taken for the marker -- the reply is cut and the rest of it is filed as a separate, broken message")
 		}
 	})
 	if n == 0 {
